@@ -8,6 +8,9 @@ CONSTANTS
   EmptyListPassThrough = FALSE
   Mode = "hist"
   HashCache = "never"
+  LazyHash = "getter"
+  ObsKinds <- NoObs
+  EmitLazy = FALSE
   CopyViaCtor = FALSE
   Emit = TRUE
 INVARIANT CacheOnlyAfterHash
